@@ -257,7 +257,7 @@ def obligations(prop, tier):
     table = {
         "C01": lambda t: k_batch(t, deep=True) + k_queue(t) + h_submit(t) + h_races(t, user=(t == "thorough")),
         "C02": lambda t: k_batch(t) + k_queue(t) + k_collect(t) + h_submit(t),
-        "C03": lambda t: h_submit(t) + h_races(t, double=(t == "thorough")) + k_tally(t) + [_ob("K-launch/nonmanager", KL, "k_launch_nonmanager", {})],
+        "C03": lambda t: h_submit(t) + k_collect(t) + h_races(t, double=(t == "thorough")) + k_tally(t) + [_ob("K-launch/nonmanager", KL, "k_launch_nonmanager", {})],
         "C04": lambda t: k_queue(t) + k_collect(t) + h_submit(t),
         "C05": lambda t: k_batch(t) + h_submit(t) + h_races(t),
         "C06": lambda t: k_batch(t) + k_queue(t) + h_submit(t) + h_races(t, user=False) + [
